@@ -336,14 +336,27 @@ theorem request_operands_arrive (s : Side) (tbl : List Nat) (target : PyVal) (ar
 
 /-! ### which operations the three configurations permit -/
 
-/-- classic mode: every name passes unchanged for get, set and delete (unless the object has an `exposed_` twin of
-the name but not the name itself, in which case the twin is used — by design) -/
-theorem classic_permits_all (has : Name → Bool) (perm : Perm) (name : Name)
-    (h : has name = true ∨ has (classicConfig.exposedPrefix ++ name) = false) :
+/-- classic mode (the switches of a connection established through the live `SlaveService`, generated): EVERY name
+passes unchanged for get, set and delete, whatever attributes the object has - the `exposed_` prefix is off, so no
+`exposed_` namesake is ever consulted -/
+theorem classic_permits_all (has : Name → Bool) (perm : Perm) (name : Name) :
     checkAttr classicConfig has perm name = .ok name := by
+  apply checkAttr_plain_noprefix
+  · cases perm <;> decide
+  · have h : classicConfig.allowAll = true := by decide
+    simp [Config.plain, h]
+  · have h : classicConfig.allowExposed = false := by decide
+    simp [Config.prefixOn, h]
+
+/-- the harness's all-attributes configuration (every name allowed, `exposed_` prefix ON; not a mode of rpyc's): every
+name passes unchanged unless the object has an `exposed_` twin of the name but not the name itself, in which case the
+twin is used — by design -/
+theorem all_attrs_permits (has : Name → Bool) (perm : Perm) (name : Name)
+    (h : has name = true ∨ has (allAttrsConfig.exposedPrefix ++ name) = false) :
+    checkAttr allAttrsConfig has perm name = .ok name := by
   apply checkAttr_plain _ _ _ _ _ _ h
   · cases perm <;> decide
-  · simp [Config.plain, classicConfig]
+  · simp [Config.plain, allAttrsConfig]
 
 /-- public-attribute mode: a name that does not start with an underscore, and every name on the safe list, passes
 unchanged for get, set and delete -/
